@@ -355,6 +355,7 @@ def planner(facts, rep):
                                        "" if resh else ": a 3-out-of-3 product fed into the protocol is missing at the neighbour party"),
                    pl.loc())
     rep.tables["planner_vs_protocol"] = table
+    product_sets_agree(facts, rep, pl, vs)
     rep.floor("C02.K", "variants compiled with an interactive protocol", n_protocol, 10)
     # the mapping entry of a to-be-reshared node is produced by reshare
     fl = Flow(facts, cg, EXTRA)
@@ -385,6 +386,47 @@ def planner(facts, rep):
             ors = fl.origins(cg.term(ins[-1])["args"][2], (ins[-1], None))
             rep.ob("C02.K", "mapping-value-from-reshare", any(o[0] == "call" and o[1] in resh_calls for o in ors),
                    "the node inserted into the mapping may be the result of reshare()", cg.loc(ins[-1]))
+
+
+def product_sets_agree(facts, rep, pl, vs):
+    """sibling agreement inside the planner: the variants whose result compute_graph_resharing marks as 3-out-of-3 itself
+    (products) are exactly the variants that sanity_pass exempts from un-marking"""
+    sp = None
+    for n in facts.bodies:
+        if n.endswith("ResharingConfig::sanity_pass"):
+            sp = facts.bodies[n]
+    if not rep.anchor("C02.K", "ResharingConfig::sanity_pass", sp):
+        return
+    flp = Flow(facts, pl)
+    ins = [bb for bb, t in pl.calls() if (callee_name(t) or "").endswith("::insert") and not pl.is_cleanup(bb)
+           and (flp.trail(t["args"][0][1]) or [""])[-1] == "unreshared_nodes"]
+    fls = Flow(facts, sp)
+    tests = [bb for bb, t in sp.calls() if (callee_name(t) or "").endswith(("::contains", "::remove"))
+             and not sp.is_cleanup(bb) and (fls.trail(t["args"][0][1]) or [""])[-1] in ("nodes_to_reshare", "unreshared_nodes")]
+    loops = C.loops(sp)
+    if not (rep.anchor("C02.K", "unreshared_nodes.insert in compute_graph_resharing", ins)
+            and rep.anchor("C02.K", "membership tests / node loop in sanity_pass", tests and loops)):
+        return
+    h, blocks = max(loops, key=lambda x: len(x[1]))
+    start = [s_ for s_ in sp.succs(h) if s_ in blocks]
+    s1, s2 = set(), set()
+    for idx, name in vs:
+        r1 = V.Interp(facts, idx).run(pl)
+        if any(b_ in r1.blocks for b_ in ins):
+            s1.add(name)
+        r2 = V.Interp(facts, idx).run(sp)
+        removed = {(x, y) for x, y in C.edges(sp) if (x, y) not in r2.edges}
+        reach = C.reachable(sp, start, removed_edges=removed, removed_blocks=set(tests))
+        if h in reach:
+            s2.add(name)
+    rep.tables["planner_product_variants"] = {"marked_3of3_by_compute_graph_resharing": sorted(s1),
+                                               "exempt_in_sanity_pass": sorted(s2)}
+    rep.ob("C02.K", "product-sets-agree", s1 == s2 and bool(s1),
+           "products marked 3-out-of-3 by the planner (%s) = variants exempt from un-marking in sanity_pass" % sorted(s1)
+           if s1 == s2 else
+           "the planner marks %s as 3-out-of-3 products but sanity_pass exempts %s: for %s the resharing mark is removed again "
+           "and the 3-out-of-3 product is revealed / consumed without re-randomisation" % (sorted(s1), sorted(s2), sorted(s1 ^ s2)),
+           sp.loc())
 
 
 # helpers whose protocol consumes replicated (2-out-of-3) shares of its arguments and communicates
